@@ -1,5 +1,5 @@
-// Package structconv: conversions between struct types with identical underlying types (5.1): fields of the one struct
-// are only read, fields of the other only written (through the literal); conversions through pointers.
+// Package structconv: conversions between struct types with identical underlying types (5.1): the fields of the one struct
+// are read, the fields of the other are referred to nowhere; conversions through pointers, chains, generics.
 package structconv
 
 type wire struct {
@@ -14,9 +14,11 @@ type model struct {
 	tags []string
 }
 
-// Decode fills a wire and reads a model.
-func Decode(id int, name string) (int, string, int) {
-	w := wire{id: id, name: name, tags: nil}
+// Decode lets the caller fill a wire (through reflection, say) and reads a model: nothing refers to wire's fields, they
+// are kept alive only by the conversion and the reads of model's fields.
+func Decode(fill func(any)) (int, string, int) {
+	var w wire
+	fill(&w)
 	m := model(w)
 	return m.id, m.name, len(m.tags)
 }
@@ -29,11 +31,12 @@ type entity struct {
 	a, b int
 }
 
-// Alias converts a pointer to a struct.
+// Alias converts a pointer to a struct; dto's fields are never referred to.
 func Alias(x, y int) int {
-	d := &dto{x, y}
+	d := new(dto)
 	e := (*entity)(d)
-	return e.a + e.b
+	e.a = x
+	return e.a + e.b + y
 }
 
 type lonelyTwin struct {
